@@ -1,4 +1,6 @@
 """C18 — reading yields models or a Hy reader error: the exception funnel around try_parse_one_form."""
+CANON = True
+
 import ast
 
 from .. import pyq, readerq
